@@ -125,10 +125,10 @@ def noUnusedFragments (d : Doc) : Prop :=
 /-- rules of the model for which no `rule_*_iff` theorem exists yet: their verdict equivalence and
     invariance rest on the correspondence check (harness/corr/C06_model.py) -/
 def Unproved : List String :=
-  ["NoUnusedFragmentsChecker", "PossibleFragmentSpreadsChecker",
+  ["NoUnusedFragmentsChecker",
    "NoFragmentCyclesChecker", "UniqueVariableNamesChecker", "NoUndefinedVariablesChecker",
-   "NoUnusedVariablesChecker", "KnownDirectivesChecker", "ValuesOfCorrectTypeChecker",
-   "VariablesInAllowedPositionChecker", "OverlappingFieldsCanBeMergedChecker", "UniqueInputFieldNamesChecker"]
+   "NoUnusedVariablesChecker", "ValuesOfCorrectTypeChecker",
+   "VariablesInAllowedPositionChecker", "OverlappingFieldsCanBeMergedChecker"]
 
 end PyGql.Validate.Spec
 
@@ -138,4 +138,11 @@ open PyGql PyGql.Validate
 def fragmentsOnCompositeTypes (s : SchemaD) (d : Doc) : Prop :=
   (∀ n ∈ nodes d, ∀ on dirs, n = Node.inline (some on) dirs → isComposite s on = true) ∧
   (∀ n ∈ nodes d, ∀ name on dirs, n = Node.fragmentDef name on dirs → isComposite s on = true)
+end PyGql.Validate.Spec
+
+namespace PyGql.Validate.Spec
+open PyGql PyGql.Validate
+/-- **5.6.3 Input object field uniqueness** -/
+def uniqueInputFieldNames (d : Doc) : Prop :=
+  ∀ n ∈ nodes d, ∀ fs, n = Node.value (.obj fs) → (fs.map (·.name)).Nodup
 end PyGql.Validate.Spec
